@@ -73,7 +73,7 @@ def shards(tier, seed):
 
 
 def _state(rng, kind, shape, lead, real_t):
-    if kind == "noise":
+    if kind in ("noise", "ties"):
         return util.field(rng, lead + shape, "noise", real_t)
     if kind == "mixed":
         return (util.field(rng, lead + shape, "spikes", real_t) + util.field(rng, lead + shape, "checker", real_t)).astype(real_t)
@@ -116,11 +116,23 @@ def run_shard(sh, rec):
             rec.case(None)
             continue
         dx = float(sim.dx)
-        for skind in ("noise", "mixed", "scaled"):
+        for skind in ("noise", "mixed", "scaled", "ties"):
             dt = float(10 ** rng.uniform(-5, -1))
+            # dt as the caller might pass it: python float, numpy double, or the working precision
+            dt = [dt, np.float64(dt), real_t(dt)][int(rng.integers(3))]
             lead_w = () if (kind == "ns2d" or (kind == "passive" and cfg["field_type"] == "scalar")) else (3,)
             w0 = _state(rng, skind, shape, lead_w, real_t)
             u0 = _state(rng, skind, shape, (d,), real_t)
+            if skind == "ties":
+                # exact zeros and exact ties v[i+1] == -v[i] in the advecting velocity (ENO3 upwind switch), all-zero for passive 2-D
+                u0[rng.random(size=u0.shape) < 0.3] = 0
+                for cc in range(d):
+                    ax = d - 1 - cc
+                    v = np.moveaxis(u0[cc], ax, -1)
+                    v[..., 1::3] = -v[..., 0:-1:3][..., : v[..., 1::3].shape[-1]]
+                if kind == "passive" and d == 2:
+                    u0[...] = 0
+                rec.count("states_with_velocity_ties")
             f0 = _state(rng, skind, shape, (d,), real_t) if cfg["forcing"] else None
             fs = rng.standard_normal(d)
             prim = sims.primary(sim)
@@ -146,7 +158,7 @@ def run_shard(sh, rec):
             rec.count("steps_" + kind)
             # clock and forcing
             rec.count("clock_checks")
-            if not (sim.time == t0 + dt):
+            if not (sim.time == t0 + dt):  # same float addition, same operand types
                 rec.violation("clock!=t0+dt", f"time {sim.time!r} expected {t0 + dt!r} cfg={label}", {"cfg": cfg})
             if f0 is not None:
                 rec.count("forcing_zero_checks")
